@@ -604,6 +604,7 @@ class Net(object):
         for s in self.pending:
             if getattr(s, "blackholed", False):
                 s.blackholed = False
+                s.pending_steps = self.latency
 
     def module(self, role):
         return SimSocketModule(self, role)
